@@ -94,14 +94,11 @@ class JsonNum(Comp):
                   b"1.5E-%d" % k, b"0.5E-%d" % k, b"1" + b"0" * k + b"E-1", b"0." + b"0" * k + b"1E1", b"0." + b"5" * k + b"E1",
                   b"0." + b"5" * k + b"E%d" % k, b"0." + b"5" * k + b"E%d" % (k + 1), b"5" * k + b"E-1", b"5" * k + b".5E1",
                   b"5" * k + b"E-%d" % k, b"5" * k + b"E-%d" % (k - 1)]
-        # mantissa length around the uint16_t window (exponent - in > UINT16_MAX is refused)
-        if tier == "thorough" or scale > 1:
-            lens = [65533, 65534, 65535, 65536, 65537, 70000]
-        else:
-            lens = [65534, 65535, 65536]
-        for n in lens:
+        # long mantissas (the uint16_t window itself, 65535 bytes, is driven by the oracle JsonNumLong: the list-based
+        # model needs minutes for one text of that size)
+        for n in (300, 1500):
             F += [b"1" * n + b"E1", b"0." + b"0" * (n - 3) + b"1E5", b"-" + b"1" * (n - 1) + b"E-1", b"1." + b"0" * (n - 2) + b"E1",
-                  b"1" + b"0" * (n - 1) + b"E-65535", b"1" * n]
+                  b"1" + b"0" * (n - 1) + b"E-%d" % (n - 1), b"1" * n]
         T += F
         for _ in range(self.n(tier, 4000, 400000, scale)):
             t = rand_number(rng)
@@ -137,7 +134,7 @@ class JsonNum(Comp):
 
 def denote_json(t):
     """exact value of a JSON number text"""
-    m = re.fullmatch(rb"(-?)(\d+)(?:\.(\d+))?(?:[eE]([+-]?\d+))?", t)
+    m = re.fullmatch(rb"(-?)(0|[1-9]\d*)(?:\.(\d+))?(?:[eE]([+-]?\d+))?", t)
     if not m:
         return None
     sg, ip, fp, ex = m.groups()
@@ -187,7 +184,47 @@ class JsonNumDenote:
         if out == "E":
             return None
         v = unhex(out.split(" ")[0])
-        a, b = denote_json(t), denote_dec(v)
+        a, b = denote_json(t[:int(out.split(" ")[1])]), denote_dec(v)
         if a is not None and a != b:
             return ("json-exp-number-wrong-value", "%s is handed on as %s" % (t.decode(), v.decode("latin-1")))
+        return None
+
+
+class JsonNumLong:
+    """numbers whose mantissa is around 65535 bytes long (uint16_t num_len, the explicit exponent - in > UINT16_MAX test):
+    the answer is predicted by the rule of the code (too long: error; otherwise the layout is decided by the output
+    length limit of 22 bytes) and the run is under ASan+UBSan"""
+    name = "jsonnum-long"
+    driver = "t_jsonnum"
+    quick_sanitize = True
+
+    def gen(self, rng, tier, scale=1.0):
+        L = []
+        self.expect = {}
+        lens = [65533, 65534, 65535, 65536, 65537, 70000, 131072] if tier == "thorough" else [65534, 65535, 65536, 65537]
+        for n in lens:
+            cases = [
+                (b"1" * n + b"E1", "E"),                                      # too long for 22 bytes or for uint16_t
+                (b"-" + b"1" * (n - 1) + b"E-1", "E"),
+                (b"0." + b"0" * (n - 3) + b"1E5", "E"),                       # 0.00..01E5 -> 0.00..001 (too long)
+                (b"1." + b"0" * (n - 2) + b"E1", "E" if n > 65535 else "10"),  # trailing zeros are dropped: 10
+                (b"1" + b"0" * (n - 1) + b"E-%d" % (n - 1), "E" if n > 65535 else "1"),
+                (b"0." + b"0" * (n - 3) + b"1E%d" % (n - 2), "E" if n > 65535 else "1"),
+                (b"1" * n, "E"),                                               # no exponent: LY_NUMBER_MAXLEN
+                (b"0." + b"0" * (n - 2) + b"E5", "0"),                         # zero mantissa: shortened to 0, any length
+                (b"1." + b"0" * (n - 2) + b"E0", None),                        # zero exponent: mantissa verbatim, any length
+            ]
+            for t, exp in cases:
+                line = "jnum\t" + hexs(t)
+                L.append(line)
+                self.expect[line] = exp if exp is not None else t[:t.index(b"E")].decode()
+        return L
+
+    def judge(self, line, out):
+        if out.startswith("CRASH") or out.startswith("TIMEOUT") or "!" in out:
+            return (None, out[:200])
+        exp = self.expect.get(line)
+        got = out if out == "E" else unhex(out.split(" ")[0]).decode("latin-1")
+        if exp is not None and got != exp:
+            return (None, "expected %s, got %s" % (exp[:40], got[:40]))
         return None
